@@ -64,3 +64,26 @@ Theorem C01_raw_column_of_a_measure : forall m x,
        end
      else V.Model.CteShape.replace_placeholder m (V.Model.CteShape.cm_sql_expr x))%string.
 Proof. reflexivity. Qed.
+
+Require V.Model.Inherit V.Gen.Inherit_gen V.Proofs.Inherit_proofs.
+(* DEFINITIONS OBTAINED THROUGH `extends`, regenerated: Gen/Inherit_gen.v holds what inheritance.merge_model makes of 35 scripted parents / children (item lists with shared,
+   new, repeated and absent names in every position; fields the child sets, leaves unset or sets to None), extracted from inheritance.py on every run by executing the
+   function's AST (translator/gen_inherit.py, fail closed, validated against CPython).  Model/Inherit.v returns the same lists and fields on every row; and for EVERY parent,
+   child and name: the merged model's item of that name is the child's own declaration when it has one and the parent's otherwise -- a whole item, never a mixture of the
+   two -- and every other field is the child's when the child sets it.  So "the declared aggregation of its expression" of a model obtained through `extends` is the
+   declaration a reader finds by looking at the child first and at the parent second; one case in four of the C01 correspondence is registered that way. *)
+Theorem C01_inherit_table : forallb V.Model.Inherit.inherit_row_ok V.Gen.Inherit_gen.inherit_rows = true.
+Proof. exact V.Proofs.Inherit_proofs.inherit_table_ok. Qed.
+Theorem C01_redeclared_item_is_the_childs : forall p c n,
+  V.Model.Inherit.assoc (V.Model.Inherit.merge_items p (Some c)) n =
+    match V.Model.Inherit.assoc (rev c) n with Some v => Some v | None => V.Model.Inherit.assoc (rev p) n end.
+Proof. exact V.Proofs.Inherit_proofs.merged_item_lookup. Qed.
+Theorem C01_inherited_item_is_the_parents : forall p n, V.Model.Inherit.assoc (V.Model.Inherit.merge_items p None) n = V.Model.Inherit.assoc (rev p) n.
+Proof. exact V.Proofs.Inherit_proofs.inherited_when_not_redeclared. Qed.
+Theorem C01_field_set_by_the_child_wins : forall p c f,
+  V.Model.Inherit.assoc (V.Model.Inherit.merge_fields p c) f = match V.Model.Inherit.assoc (rev c) f with Some v => Some v | None => V.Model.Inherit.assoc p f end.
+Proof. exact V.Proofs.Inherit_proofs.merged_field_lookup. Qed.
+Example C01_inherit_nonvacuous :
+  V.Model.Inherit.merge_items [("revenue", "SUM(amount) WHERE completed"); ("max_amount", "MAX(amount)")]%string (Some [("revenue", "SUM(amount)"); ("n", "COUNT(*)")]%string) =
+    [("revenue", "SUM(amount)"); ("max_amount", "MAX(amount)"); ("n", "COUNT(*)")]%string.
+Proof. vm_compute. reflexivity. Qed.
